@@ -140,6 +140,53 @@ theorem facade_lp_is_trace (le : Expect → Expect → Bool) (kind : Kind) (arms
       (LP.init kind arms none k1).run ((Bandit.init arms kind .none none k1).lpTrace le h) :=
   runHist_lp le h _ (binv_init arms kind .none none k1 hn) rfl ht
 
+/-- **C01 at the public API, ε-greedy written out.**  After any facade history of training calls the
+    stored expectation of every current arm is the running mean of the rewards the *accepted* calls
+    delivered for that arm since its last fit / add (0 when there are none). -/
+theorem facade_expectation_greedy (le : Expect → Expect → Bool) (eps : Rat) (arms : List α) (hn : arms.Nodup)
+    (h : History α) (ht : ∀ c ∈ h, c.1.isTraining = true) (a : α)
+    (ha : a ∈ ((Bandit.init arms (.greedy eps) .none none false).runHist le h).arms) :
+    let log := ((Spec.init arms).run ((Bandit.init arms (.greedy eps) .none none false).lpTrace le h)).log a
+    (((Bandit.init arms (.greedy eps) .none none false).runHist le h).lp.st.get? a).map (·.exp) =
+      some (if log.length = 0 then .val 0 else .val (lmean log)) := by
+  intro log
+  have hlp := facade_lp_is_trace le (.greedy eps) arms false hn h ht
+  have hi := binv_reachable le arms (.greedy eps) .none none false hn h
+  have hnp : ((Bandit.init arms (.greedy eps) .none none false).runHist le h).np = .none := by
+    have key : ∀ (h : History α) (b : Bandit α), (b.runHist le h).np = b.np := by
+      intro h
+      induction h with
+      | nil => intro b; rfl
+      | cons c t ih => intro b; obtain ⟨op, o, g⟩ := c; simp only [Bandit.runHist]; rw [ih, step_np]
+    rw [key]; rfl
+  have harms := (hi.lp (by intro n; rw [hnp]; simp)).2
+  rw [hlp]
+  apply cf_expectation_greedy eps arms hn _ a
+  rw [← hlp, harms]; exact ha
+
+/-- the same for Thompson Sampling: Beta parameters one plus successes / one plus failures of the
+    accepted calls' rewards for the arm -/
+theorem facade_thompson_counts (le : Expect → Expect → Bool) (arms : List α) (hn : arms.Nodup)
+    (h : History α) (ht : ∀ c ∈ h, c.1.isTraining = true) (a : α)
+    (ha : a ∈ ((Bandit.init arms .thompson .none none false).runHist le h).arms) :
+    let log := ((Spec.init arms).run ((Bandit.init arms .thompson .none none false).lpTrace le h)).log a
+    (((Bandit.init arms .thompson .none none false).runHist le h).lp.st.get? a).map (fun r => (r.succ, r.fail)) =
+      some (1 + lsum log, 1 + ((log.length : Rat) - lsum log)) := by
+  intro log
+  have hlp := facade_lp_is_trace le .thompson arms false hn h ht
+  have hi := binv_reachable le arms .thompson .none none false hn h
+  have hnp : ((Bandit.init arms .thompson .none none false).runHist le h).np = .none := by
+    have key : ∀ (h : History α) (b : Bandit α), (b.runHist le h).np = b.np := by
+      intro h
+      induction h with
+      | nil => intro b; rfl
+      | cons c t ih => intro b; obtain ⟨op, o, g⟩ := c; simp only [Bandit.runHist]; rw [ih, step_np]
+    rw [key]; rfl
+  have harms := (hi.lp (by intro n; rw [hnp]; simp)).2
+  rw [hlp]
+  apply cf_thompson_counts arms hn _ a
+  rw [← hlp, harms]; exact ha
+
 /-! ### with predictions interleaved
 
 A `predict` / `predict_expectations` between training calls leaves the policy as it was, except that a
